@@ -1156,6 +1156,8 @@ static tjhandle _tjInitCompress(tjinstance *this)
 
   if (setjmp(this->jerr.setjmp_buffer)) {
     /* If we get here, the JPEG code has signaled an error. */
+    jpeg_destroy_compress(&this->cinfo);
+    if (this->init & DECOMPRESS) jpeg_destroy_decompress(&this->dinfo);
     free(this);
     return NULL;
   }
@@ -1807,6 +1809,8 @@ static tjhandle _tjInitDecompress(tjinstance *this)
 
   if (setjmp(this->jerr.setjmp_buffer)) {
     /* If we get here, the JPEG code has signaled an error. */
+    jpeg_destroy_decompress(&this->dinfo);
+    if (this->init & COMPRESS) jpeg_destroy_compress(&this->cinfo);
     free(this);
     return NULL;
   }
